@@ -65,6 +65,9 @@ TradesC(s) ==
               {Tr(op, "C", a, "mkt", Zero) : a \in AmtAlpha(lv)}
          \cup {Tr(op, "C", a, "lim", px) : a \in LimAmt(lv), px \in LimPx(lv)}
          \cup {Tr(op, "C", a, "cap", k) : a \in CapAmt(lv), k \in CapK}
+         \* a limit price quoted in USD (price_in_usd): the first level's price x the underlying, and a price no level has
+         \cup (IF Len(lv) >= 1 THEN {Tr(op, "C", One, "limusd", QMul(lv[1].p, s.book["C"].und))} ELSE {})
+         \cup {Tr(op, "C", One, "limusd", QOf(7, 5))}
          : op \in {"buy", "sell"}}
 TradesP(s) == {Tr(op, "P", a, "mkt", Zero) : op \in {"buy", "sell"}, a \in {One, QI(20)}}
                \cup {Tr("sell", "P", QI(5), "lim", P4(590))}
